@@ -45,7 +45,7 @@ ASSUMPTIONS = [
     'the subject of C05)',
 ]
 TRUSTED = [
-    'coq/C09/Model.v hand-written transcription of functional.py / default_functionals.py (validated by the '
+    'coq/C09/Model.v hand-written transcription of functional.py / default_functionals.py at /repo >= aef4c15, 7ebf769 (validated by the '
     'correspondence on every run)',
     'harness/c09.py tree generator and flattening of odl elements',
 ]
@@ -250,7 +250,7 @@ def _gen_leaf(rng, S, positive=False):
     F = odl.solvers
     w = S.wq
     kinds = ['l2sq', 'l2sq', 'l2', 'l1', 'const', 'zero', 'lin', 'quad_scal', 'quad_mult']
-    if not S.is_pspace and not S.array_weighted:
+    if not S.is_pspace:       # Huber on tensor spaces incl. array weighting (repaired in /repo bec7266)
         kinds += ['huber', 'huber']
     if S.kind in ('rn', 'rn1'):
         kinds += ['quad_mat']
@@ -369,7 +369,7 @@ def gen_tree(rng, S, depth, vs, force=None):
     if k in ('ov_mul', 'ov_mul0'):
         f = sub()
         s = 0.0 if k == 'ov_mul0' else dy(rng, nz=True)
-        return Node(f.py * s, '(Xmul %s %s %s %s)' % (vs, w, f.coq, C.q(s)), [k, f.desc, s], S)
+        return Node(f.py * s, '(Xmul %s %s %s)' % (w, f.coq, C.q(s)), [k, f.desc, s], S)
     if k in ('ov_rmul', 'ov_rmul0'):
         f = sub()
         s = 0.0 if k == 'ov_rmul0' else dy(rng, nz=True)
@@ -383,7 +383,7 @@ def gen_tree(rng, S, depth, vs, force=None):
     if k == 'ov_div':
         f = sub()
         s = rng.choice([2.0, 4.0, -2.0, 0.5, -0.25, 8.0])
-        return Node(f.py / s, '(Xdiv %s %s %s %s)' % (vs, w, f.coq, C.q(s)), [k, f.desc, s], S)
+        return Node(f.py / s, '(Xdiv %s %s %s)' % (w, f.coq, C.q(s)), [k, f.desc, s], S)
     raise ValueError(k)
 
 
@@ -394,15 +394,13 @@ KIND = {'FunctionalLeftScalarMult': 'KLeftScal', 'FunctionalRightScalarMult': 'K
 
 
 def measure_variants():
-    """Which behaviour does the current code exhibit on the replay input of each recorded finding?"""
-    import odl
-    sp = odl.rn(2)
-    qp = odl.solvers.FunctionalQuadraticPerturb(odl.solvers.ZeroFunctional(sp), constant=1.0)
-    return {'qp_lin_const': not qp.is_linear}
+    """No behaviour switch is left: the FunctionalQuadraticPerturb linear flag was repaired in /repo aef4c15
+    and the model follows the repaired code."""
+    return {}
 
 
 def vs_term(v):
-    return '(mkVariants %s)' % C.b(v['qp_lin_const'])
+    return None
 
 
 def ilip(L):
@@ -431,8 +429,8 @@ def case_of(rng, S, node, vs):
                          'd_after': S.flat(de)})
     if not (math.isfinite(val) and all(math.isfinite(t) for t in g) and math.isfinite(dv)):
         return None
-    term = ('(mkCase %s %s %s %s %s %s %s %s %s %s %s)'
-            % (S.wq, vs, node.coq, C.qs(x), C.qs(d), C.q(val), C.qs(g), C.q(dv), ilip(f.grad_lipschitz),
+    term = ('(mkCase %s %s %s %s %s %s %s %s %s %s)'
+            % (S.wq, node.coq, C.qs(x), C.qs(d), C.q(val), C.qs(g), C.q(dv), ilip(f.grad_lipschitz),
                C.b(bool(f.is_linear)), KIND.get(type(f).__name__, 'KLeaf')))
     desc = {'space': S.kind, 'weights': S.w, 'tree': node.desc, 'x': x, 'd': d}
     key = (S.kind, repr(node.desc), tuple(x), tuple(d)) if (node.derived or node.desc[0] not in ('Constant', 'Zero')) else None
@@ -479,8 +477,8 @@ def sepsum_cases(rng, tier, vs):
         dv = float(f.derivative(xe)(de))
         if not (math.isfinite(val) and math.isfinite(dv) and all(math.isfinite(t) for t in g1 + g2)):
             continue
-        term = ('(mkCase2 %s %s %s %s %s %s %s %s %s %s %s %s %s %s %s)'
-                % (S1.wq, S2.wq, vs, f1.coq, f2.coq, C.qs(x1), C.qs(x2), C.qs(d1), C.qs(d2), C.q(val),
+        term = ('(mkCase2 %s %s %s %s %s %s %s %s %s %s %s %s %s %s)'
+                % (S1.wq, S2.wq, f1.coq, f2.coq, C.qs(x1), C.qs(x2), C.qs(d1), C.qs(d2), C.q(val),
                    C.qs(g1), C.qs(g2), C.q(dv), ilip(f.grad_lipschitz), C.b(bool(f.is_linear))))
         cs.add(term, {'spaces': [S1.kind, S2.kind], 'f1': f1.desc, 'f2': f2.desc, 'x': [x1, x2], 'd': [d1, d2]},
                (S1.kind, S2.kind, repr(f1.desc), repr(f2.desc), tuple(x1), tuple(x2)))
@@ -510,8 +508,16 @@ def moreau_cases(rng, tier):
     return cs
 
 
+_RAISED = []      # trees on which f(x) / f.gradient(x) / f.derivative(x)(d) raised, reported by probes()
+
+
 def _add(cs, rng, S, node, vs):
-    r = case_of(rng, S, node, vs)
+    try:
+        r = case_of(rng, S, node, vs)
+    except Exception as e:       # keep the rest of the correspondence running; the exception becomes a failed probe
+        _RAISED.append({'tree': node.desc, 'space': S.kind, 'weights': S.w,
+                        'raised': '%s: %s' % (type(e).__name__, str(e)[:200])})
+        return
     if r is not None:
         cs.add(*r)
 
@@ -662,7 +668,7 @@ def _run_probe(name, rng, odl, F):
         key = 'grad-%s-%s' % (label, sk)
         what = '%s on %s: inner(gradient(x), d) vs directional derivative vs derivative(x)(d)' % (label, sk)
         if label == 'Huber' and S.array_weighted:
-            key = 'huber-array-weighting-raises'
+            key = 'huber-array-weighting-raises'      # fixed finding: must stay silent, alarms if it returns
         try:
             ok, det = _grad_check(f, S, x, d)
             if ok:
@@ -869,6 +875,10 @@ def probes(rng, tier):
         out.append(C.Probe(False, 'call-mutates-input-%s' % m['tree'][0],
                            'f(x), f.gradient(x) or f.derivative(x)(d) modified its argument', None, m))
     del _MUTATED[:]
+    for m in _RAISED:
+        out.append(C.Probe(False, 'call-raises-%s-%s' % (m['tree'][0], m['space']),
+                           'f(x), f.gradient(x) or f.derivative(x)(d) raised on a generated tree', None, m))
+    del _RAISED[:]
     for name in _probe_names(rng, tier):
         seed = rng.getrandbits(40)
         try:
